@@ -51,17 +51,31 @@ def fault_cases(ck, count):
         f = head.split()[1]
         for w in sorted(set([0, 1, CH - 1, CH, CH + 1, 2 * CH, max(0, n - 20), n])):
             cid = "wd%d_%d" % (i, w)
-            lines.append("%s decf %d %s %s %d %d" % (cid, T, key.hex(), f, NOFAIL, w))
-            meta[cid] = "write-error/decrypt"
+            nb = w % 2 == 0 or w == n
+            lines.append("%s decf %d %s %s %d %d%s" % (cid, T, key.hex(), f, NOFAIL, w, " nobuf" if nb else ""))
+            meta[cid] = "write-error/decrypt" + ("/unbuffered-output" if nb else "")
     for i in range(count // 2):
         T = r.choice([1, 2, 3, 4, 16])
         n = r.choice([0, 10, CH, CH + 5, 3 * CH, 4 * CH + 9, 7 * CH + 1])
         body0 = 48 + 20 * T
         w = r.choice([0, 10, 48, body0 - 1, body0, body0 + CH - 1, body0 + CH, body0 + CH + 1, body0 + 2 * CH, body0 + n, body0 + n + 16])
         cid = "we%d" % i
-        lines.append("%s encf %d %d %d %s %s %s %d %d" % (cid, r.randrange(5), r.randrange(3), T, rnd_key(r).hex(), rnd_seed(r).hex(), wv_.hexs(rnd_bytes(r, n)), NOFAIL, w))
-        meta[cid] = "write-error/encrypt"
+        nb = i % 3 != 0
+        lines.append("%s encf %d %d %d %s %s %s %d %d%s" % (cid, r.randrange(5), r.randrange(3), T, rnd_key(r).hex(), rnd_seed(r).hex(), wv_.hexs(rnd_bytes(r, n)), NOFAIL, w, " nobuf" if nb else ""))
+        meta[cid] = "write-error/encrypt" + ("/unbuffered-output" if nb else "")
     res = wv_.run_lines([exe], lines, env=dict(env, WV_TIMEOUT_MS="8000"))
+    # the write-error cases again under the deterministic scheduler (seeded schedules): with real threads and 64-byte chunks a
+    # worker is never in the middle of a chunk when the write fails; under the shim every interleaving of that moment is reachable
+    shim = shim_driver(ck)
+    slines = []
+    for l in [l for l in lines if meta[l.split()[0]].startswith("write-error")][:: 1 if ck.tier == "thorough" else 3]:
+        cid, rest = l.split(" ", 1)
+        for k in range(3):
+            sid = "%s_s%d" % (cid, k)
+            slines.append("%s @WV_SCHED_SEED=%d,WV_SCHED_POLICY=%d %s" % (sid, r.randrange(1 << 30), k % 2, rest))
+            meta[sid] = meta[cid] + "/seeded-schedule"
+    res.update(wv_.run_lines([shim], slines, env=dict(env, WV_TIMEOUT_MS="20000")))
+    lines = lines + slines
     dist = ck.cov.setdefault("case_classes", {})
     for l in lines:
         cid = l.split()[0]
